@@ -873,6 +873,7 @@ type C11RowsCase struct {
 	Sess    string     `json:"s"`              // conn | tx | stmt | txstmt | rawtx (ext: cached)
 	Ctx     bool       `json:"x,omitempty"`    // ...Ctx form
 	Cd      bool       `json:"cd,omitempty"`   // the context handed to the ...Ctx form is already cancelled
+	W       bool       `json:"w,omitempty"`    // warm-up: the same call into the same destination type with the columns in reverse order runs first (result ignored)
 	Single  bool       `json:"one,omitempty"`  // QueryRow* (else QueryRows*)
 	Partial bool       `json:"part,omitempty"` // *Partial form (non-strict)
 	Prim    string     `json:"prim,omitempty"` // primitive destination (i64 str f64 bool); Fields unused
@@ -1113,6 +1114,7 @@ func VerifC11GenRows(sessions []string) func(rt *rapid.T) C11RowsCase {
 		}
 		c.ElemPtr = !c.Single && rapid.Bool().Draw(rt, "elemptr")
 		c.Cd = rapid.IntRange(0, 19).Draw(rt, "ctxdone") == 11 && c.Ctx
+		c.W = rapid.IntRange(0, 3).Draw(rt, "warmup") == 0
 		c.Shape = rapid.SampledFrom([]string{"tagged", "tagged", "tagged", "tagged", "tagged", "tagged",
 			"untagged", "untagged", "emb-untagged", "emb-tagged", "mixed", "prim"}).Draw(rt, "shape")
 
@@ -1580,6 +1582,37 @@ func VerifC11InterpRows(c C11RowsCase, q C11Querier) (v kit.Verdict) {
 		dst = reflect.New(reflect.SliceOf(reflect.PointerTo(st)))
 	default:
 		dst = reflect.New(reflect.SliceOf(st))
+	}
+	newDst := func() reflect.Value {
+		switch {
+		case c.Single:
+			return reflect.New(st)
+		case c.ElemPtr:
+			return reflect.New(reflect.SliceOf(reflect.PointerTo(st)))
+		default:
+			return reflect.New(reflect.SliceOf(st))
+		}
+	}
+	if c.W && len(c.Cols) > 1 && !c.Cd {
+		// an earlier query of another column order into the same type must not
+		// influence this one (keeps a replay of this case self-contained)
+		classes["warm-up-reversed-columns"] = true
+		wf := newC11Fake()
+		n := len(c.Cols)
+		for i := n - 1; i >= 0; i-- {
+			wf.cols = append(wf.cols, c.Cols[i].N)
+		}
+		wrow := make([]driver.Value, n)
+		for i := range wrow {
+			wrow[i] = c11DriverValue(c.Cols[n-1-i], 0)
+		}
+		wf.rows = [][]driver.Value{wrow}
+		wdb := sql.OpenDB(c11Connector{wf})
+		func() {
+			defer func() { _ = recover() }()
+			_ = q(c, wdb, newDst().Interface())
+		}()
+		wdb.Close()
 	}
 	err, pv := call(dst.Interface())
 
